@@ -299,6 +299,22 @@ class Engine:
             return UnitV()
         return None
 
+    def havoc_aggregate(self, v, hint):
+        """loop-carried struct / tuple / array whose leaves are scalars (Range counters, (value, flag) pairs): same shape,
+        fresh leaves.  Anything containing references, enums or opaque values is left as it is (-> None)."""
+        if isinstance(v, Int):
+            return self.sym_int(v.ty, hint)
+        if isinstance(v, BoolV):
+            return self.sym_bool(hint)
+        if isinstance(v, F64):
+            return self.sym_f64(hint)
+        if isinstance(v, Agg) and v.fields:
+            fs = [self.havoc_aggregate(f, hint) for f in v.fields]
+            if any(f is None for f in fs):
+                return None
+            return Agg(v.kind, v.name, fs)
+        return None
+
     # ---- solver helpers
     def check(self, *extra):
         self.queries += 1
@@ -381,6 +397,13 @@ class Engine:
                     r = root_local(st[1])
                     if r is not None:
                         out.add(r)
+                    # a local borrowed mutably inside the loop may be written through that reference (iterators, `&mut x`
+                    # handed to a callee): it belongs to the loop state as well
+                    rv = st[2]
+                    if rv and rv[0] == "ref" and len(rv) > 2 and rv[2]:
+                        r2 = root_local(rv[1])
+                        if r2 is not None and rv[1][0] != "deref":
+                            out.add(r2)
             t = b.term[0]
             if t[0] == "call" and t[1] is not None:
                 r = root_local(t[1])
@@ -902,7 +925,7 @@ class Engine:
                         # snapshot of the state in which the loop is ENTERED (base case of the inductive argument): scalar
                         # locals, cursor, and how much of the path condition / event log existed at that moment
                         st.notes["arrivals"] = st.notes.get("arrivals", ()) + ((fr.bb, {
-                            "locals": dict((k, v) for k, v in fr.locals.items() if isinstance(v, (Int, BoolV, F64))),
+                            "locals": dict(fr.locals),
                             "idx": st.notes.get("idx"), "pc_len": len(st.pc), "nev": len(st.events), "fn": fn.name}),)
                         if self.on_header:
                             self.on_header(self, st, fr, fr.bb, "enter")
@@ -924,6 +947,8 @@ class Engine:
                                     nv = Int(z3.BitVec(nm, INT_TY[ty][0]), ty)
                             else:
                                 nv = self.fresh_for_type(ty, "hv%d" % ln)
+                                if nv is None:
+                                    nv = self.havoc_aggregate(fr.locals.get(ln), "hv%d" % ln)
                             if nv is not None:
                                 fr.locals[ln] = nv
                         if self.havoc_hook:
